@@ -12,6 +12,7 @@ package util
 //@   requires c != nil && isptr(m, types.Packet) && asptr(m, types.Packet) != nil
 //@   effects IoWrite
 //@   ensures one_write: result == nil ==> cnt(IoWrite) == old(cnt(IoWrite)) + 1
+//@   ensures frame_is_prefix_plus_encoding: cnt(IoWrite) == old(cnt(IoWrite)) + 1 && arg(IoWrite, 0) == 4 + specPacketSize(asptr(m, types.Packet))
 //@   ensures atmost: cnt(IoWrite) <= old(cnt(IoWrite)) + 1
 //@   at call io.Writer.Write: frame: len(b) == size + 4 && size >= 0 && b[0] == byte(uint32(size) >> 24) && b[1] == byte(uint32(size) >> 16) && b[2] == byte(uint32(size) >> 8) && b[3] == byte(uint32(size))
 
